@@ -472,6 +472,20 @@ impl StreamChunks for CustomSource {
 // ---------------------------------------------------------------------------
 // building
 
+/// Read-only, non-blocking look at one cache slot of a CachedSource node.
+pub type Peeker = Box<dyn Fn(&MapOptions) -> rspack_sources::VerifPeek + Send + Sync>;
+
+/// While `Some`, every CachedSource node built by `build_with` registers a
+/// peeker here (a clone of the node: it shares the cache).
+pub static PEEKERS: std::sync::Mutex<Option<Vec<Peeker>>> = std::sync::Mutex::new(None);
+
+fn register_peeker<T: 'static + Send + Sync>(c: &CachedSource<T>) {
+  if let Some(v) = PEEKERS.lock().unwrap().as_mut() {
+    let c2 = c.clone();
+    v.push(Box::new(move |o| c2.verif_peek(o)));
+  }
+}
+
 pub enum Built {
   Concat(ConcatSource),
   Other(BoxSource),
@@ -612,8 +626,16 @@ pub fn build_with(spec: &Spec, wrap: Wrap) -> Built {
       }
     }
     Spec::Cached { inner } => match build_with(inner, wrap) {
-      Built::Concat(cs) => other(CachedSource::new(cs).boxed()),
-      Built::Other(b) => other(CachedSource::new(b).boxed()),
+      Built::Concat(cs) => {
+        let c = CachedSource::new(cs);
+        register_peeker(&c);
+        other(c.boxed())
+      }
+      Built::Other(b) => {
+        let c = CachedSource::new(b);
+        register_peeker(&c);
+        other(c.boxed())
+      }
     },
     Spec::Boxed { inner } => {
       let b = build_with(inner, wrap).boxed();
